@@ -7,3 +7,4 @@ import LLBuild.Props.C01Gen
 import LLBuild.Props.EngineImplSoundGen
 import LLBuild.Props.EngineImplSound
 import LLBuild.Props.EngineImplSched
+import LLBuild.Props.EngineImplAll
